@@ -49,6 +49,16 @@ def seek (cur : Int) (offset : Int) (whence : Int) (dontCheck : Bool) (offsets :
         else offset
       if offset < first || offset > last then .outOfRange else .ok offset
 
+/-- (*Conn).ReadOffsets: first offset, then last offset, by two list-offset requests; an error of the first is
+returned as is, an error of the second is returned without leaking the first value -/
+def readOffsets (first last : Except Int Int) : Except Int (Int × Int) :=
+  match first with
+  | .error e => .error e
+  | .ok f =>
+    match last with
+    | .error e => .error e
+    | .ok l => .ok (f, l)
+
 /-- does this call consult the broker? -/
 def needsOffsets (cur : Int) (offset : Int) (whence : Int) (dontCheck : Bool) : Bool :=
   (whence == seekStart || whence == seekEnd) ||
